@@ -320,12 +320,31 @@ class ChoiceExplorer:
 # --------------------------------------------------------------------------------------------------------------------
 
 _WORK = {}
+_COV = {}
+
+
+def _coverage():
+    """Development aid (tools/coverage_report.sh): with VERIF_COVERAGE_DIR set, every worker measures which lines / branches of
+    the library its cases execute. Not used by the registered commands."""
+    d = os.environ.get("VERIF_COVERAGE_DIR")
+    if not d:
+        return None
+    if _COV.get("pid") != os.getpid():
+        import coverage
+
+        repo = os.environ.get("VERIF_REPO", "/repo")
+        cov = coverage.Coverage(data_file=os.path.join(d, ".coverage"), data_suffix=True, branch=True,
+                                include=[os.path.join(repo, "rpylib", "*")])
+        cov.start()
+        _COV.update(pid=os.getpid(), cov=cov)
+    return _COV["cov"]
 
 
 def _run_chunk(args):
     idx, chunk = args
     mod = _WORK["mod"]
     sh = Shard()
+    cov = _coverage()
     for case in chunk:
         sh.case = case
         try:
@@ -341,6 +360,8 @@ def _run_chunk(args):
             )
         sh.count("cases")
     sh.case = None
+    if cov is not None:
+        cov.save()
     return idx, sh
 
 
